@@ -9,28 +9,32 @@ From Labella Require Import Render.Geometry Render.Scene Render.Axis Render.Axis
   Render.Pipeline Render.PipelineProofs Layout.ForceState Render.Options Render.OptionsProofs.
 Import ListNotations.
 
-Definition raw_of_user (user : option dict) (data : list raw_datum) (dom : option (tval * tval))
+Definition raw_of_user (fresh : N) (user : option dict) (data : list raw_datum) (dom : option (tval * tval))
            (today : Z * Z * Z) : ores raw_in :=
-  obind (resolve user) (fun r =>
+  obind (resolve fresh user) (fun r =>
   OOk (mkRawIn (if r_linear r then SLinear else STime) data dom (r_opts r) (r_engine r) today)).
 
-Definition export_docs (user : option dict) (data : list raw_datum) (dom : option (tval * tval))
+Definition export_docs (fresh : N) (user : option dict) (data : list raw_datum) (dom : option (tval * tval))
            (today : Z * Z * Z) : ores (ares (svg_doc * tikz_doc)) :=
-  obind (raw_of_user user data dom today) (fun r => OOk (timeline_docs r)).
+  obind (raw_of_user fresh user data dom today) (fun r => OOk (timeline_docs r)).
 
-Theorem export_total : forall user data dom today,
+(* Hypotheses: the options are in the documented domain (user_ok: any subset of the keys,
+   given values of the documented kinds, valid colour codes, positive density ...) and the
+   resolved input is in the documented domain of the pipeline model (pipeline_dom: non-empty
+   data of the scale's kind, instants in 1900-2200, non-negative paddings and spacings ...). *)
+Theorem export_total : forall fresh user data dom today,
   (match user with Some u => user_ok u | None => True end) ->
-  (forall r, raw_of_user user data dom today = OOk r -> doc_domain (ri_axis r)) ->
-  exists r s, raw_of_user user data dom today = OOk r /\
-              export_docs user data dom today = OOk (AOk (svg_doc_of s, tikz_doc_of s)).
+  (forall r, raw_of_user fresh user data dom today = OOk r -> pipeline_dom r) ->
+  exists r s, raw_of_user fresh user data dom today = OOk r /\
+              export_docs fresh user data dom today = OOk (AOk (svg_doc_of s, tikz_doc_of s)).
 Proof.
-  intros user data dom today U D.
-  assert (R : exists rs, resolve user = OOk rs).
+  intros fresh user data dom today U D.
+  assert (R : exists rs, resolve fresh user = OOk rs).
   { destruct user as [u|]; [now apply resolve_total|apply resolve_none_total]. }
   destruct R as [rs Ers].
   set (r := mkRawIn (if r_linear rs then SLinear else STime) data dom (r_opts rs) (r_engine rs) today).
-  assert (Er : raw_of_user user data dom today = OOk r) by (unfold raw_of_user; rewrite Ers; reflexivity).
-  destruct (axis_total _ (D r Er)) as [ax Eax].
+  assert (Er : raw_of_user fresh user data dom today = OOk r) by (unfold raw_of_user; rewrite Ers; reflexivity).
+  destruct (D r Er) as [DD _]. destruct (axis_total _ DD) as [ax Eax].
   exists r, (scene_of r ax). split; [exact Er|].
   unfold export_docs. rewrite Er. cbn [obind]. unfold timeline_docs, pipeline_scene. rewrite Eax. reflexivity.
 Qed.
